@@ -51,7 +51,15 @@ function toJS(v) {
       const as = v.as.map(toJS)
       // eslint-disable-next-line no-new-func
       if (v.o === 'lit') return new Function('return (' + as[0] + ')')()
+      if (v.o === 'spread') {
+        // spreading a non-array: JavaScript throws for non-iterables, so the expression has no
+        // reference value under this data (C03 owns the string case); the comparison is skipped
+        const e = new Error('NOREF')
+        e.noref = true
+        throw e
+      }
       if (v.o === 'call') return (0, as[0])(...as.slice(1))
+      if (v.o === 'strcat') return as.map((x, i) => (v.as[i].k === 'str' ? x : (x === null || x === undefined ? '' : String(x)))).join('')
       if (v.as.length === 1) return unOp(v.o)(as[0])
       return binOp(v.o)(as[0], as[1])
     }
@@ -75,12 +83,7 @@ function canonSpec(nodes) {
     if (n.t === 'elem') o.tag = n.tag
     if (n.t === 'slot') o.name = Y(rv(n.name))
     if (n.t === 'block') o.slot = Y(rv(n.slot))
-    else if (n.slot && n.slot.t !== 'absent') {
-      // E(tag, .., slot) / S(name, init, slot): `undefined` means "no slot given"
-      const sv = rv(n.slot)
-      if (n.t === 'slot') o.slot = Y(sv)      // S(...) always receives Y(value)
-      else if (sv !== undefined) o.slot = Y(sv)
-    }
+    else if (n.slot && n.slot.t !== 'absent') o.slot = Y(rv(n.slot))   // E / S / J all receive Y(value)
     if (n.at) {
       for (const a of n.at) {
         const val = rv(a.v)
@@ -190,13 +193,18 @@ function runCase(G, c) {
     }
     if (specTree !== undefined && specTree !== null) {
       let want
+      let noref = false
       try { want = canonSpec(specTree) } catch (e) {
-        res.problems.push({ step, what: 'tool: spec tree conversion failed', msg: String(e && e.stack || e) })
-        res.ok = false
-        return
+        if (e && e.noref) { noref = true; res.noref = (res.noref || 0) + 1; specTree = null } else {
+          res.problems.push({ step, what: 'tool: spec tree conversion failed', msg: String(e && e.stack || e) })
+          res.ok = false
+          return
+        }
       }
-      const d = diff(want, actual, '$')
-      if (d) { res.ok = false; res.problems.push({ step, what: 'tree differs from the specification', diff: d }) }
+      if (!noref) {
+        const d = diff(want, actual, '$')
+        if (d) { res.ok = false; res.problems.push({ step, what: 'tree differs from the specification', diff: d }) }
+      }
     }
     if (step >= 0 && data !== undefined) {
       // second oracle: a fresh creation with the same data
